@@ -287,6 +287,7 @@ def jobs(tier, seed):
         "2feat-select": ([F([S(1), S(1)]), F([S(1)])], {"out_dom": {"*": [0, 1]}, "select": True}),
         "feature-cleanup": ([F([S(1)]), F([S(1)])], {"out_dom": {"*": [0, 1]}}),
         "wip": ([F([S(2, tags=["wip"]), S(1)], bg=1)], {"out_dom": {"*": [0, 3]}, "undef": False}),
+        "converr": ([F([S(2), S(1)])], {"out_dom": {"*": [0, 1]}, "converr": True, "undef": False}),
         "hook-skip": ([F([S(1), S(2), R([S(1)], bg=1)])], {"out_dom": {"*": [0, 1]}, "undef": False}),
     }
     if tier == "thorough":
